@@ -7,6 +7,6 @@ CONSTANTS
   IdSize = 2
   VecSize = 128
   Weaken = "validator-no-strip"
-  Domain = "quick"
+  Domain = "attack"
 INVARIANT InvAgree
 INVARIANT InvInRange
